@@ -787,7 +787,26 @@ class XlsxRowWriter(AbstractRowWriter):
         assert row_to_write is not None
 
         row_index = self.location.line
-        for item in row_to_write:
+        # Refuse rows the sheet cannot store before writing any of their items.
+        items_to_write = list(row_to_write)
+        if row_index >= self.worksheet.xls_rowmax:
+            raise errors.DataFormatError(
+                "cannot write more than %d rows to Excel sheet" % self.worksheet.xls_rowmax, self.location
+            )
+        if len(items_to_write) > self.worksheet.xls_colmax:
+            raise errors.DataFormatError(
+                "cannot write row with %d items to Excel sheet, at most %d items are possible"
+                % (len(items_to_write), self.worksheet.xls_colmax),
+                self.location,
+            )
+        for item in items_to_write:
+            if isinstance(item, str) and len(item) > self.worksheet.xls_strmax:
+                raise errors.DataFormatError(
+                    "cannot write item with %d characters to Excel sheet, at most %d characters are possible"
+                    % (len(item), self.worksheet.xls_strmax),
+                    self.location,
+                )
+        for item in items_to_write:
             assert item is not None
             assert not isinstance(item, bytes), "item must be a string: %r" % item
             column_index = self.location.cell
